@@ -446,6 +446,9 @@ func (s *indexKVStore) FindValuesByLike(bucketID uint32, like string, ids []uint
 	switch {
 	case like == "":
 		return nil, nil
+	case like == "*":
+		// single wildcard: all values of the tag key
+		return s.findValuesByLike(bucketID, nil, nil, bytes.HasPrefix, ids)
 	// only ends with *
 	case !hashPrefix && hasSuffix:
 		prefix := likeSlice[:len(likeSlice)-1]
